@@ -7,6 +7,7 @@
 (2) correspondence: real code in-process vs the Lean model (lean/GlotaranModel/C16.lean)
       roundtrip   save_parameters -> load_parameters for csv / tsv (separator, replace_infinfinity) / xlsx / ods,
                   two cycles; loaded parameters and the raw cells of the written file
+      overwrite   a history of 2-4 sets saved to one path (shrinking / growing / empty), each step as `roundtrip`
       file        hand-written tables (header case, serialized names, column order / subsets, ints for booleans,
                   empty / None / none cells, stale values of expression parameters, one injected fault) -> load_parameters
       frame       Parameters.from_dataframe on typed frames (object and inferred dtypes)
@@ -90,10 +91,17 @@ RULE = (
     "full double range (random bit patterns), special doubles (max, min subnormal, 0.1+0.2, 2^53+1 …), NaN, ±inf; bound "
     "columns all-infinite (empty), finite, mixed, ints, reversed infinities; standard errors NaN/float/inf; every flag "
     "combination; expression columns none / some / all-but-one / constants-only, referencing other groups; every format, "
-    "csv separators , ; | and tab, replace_infinfinity on/off; two save-load cycles. Hand-written tables derive from such "
+    "csv separators , ; | and tab, replace_infinfinity on/off; two save-load cycles. Histories of one file (stream "
+    "`overwrite`): 2-4 such sets saved one after the other with allow_overwrite=True to the SAME csv / xlsx / ods path "
+    "(a later set with fewer rows than the file holds, the empty set, the same set again, the previous set with parameters "
+    "dropped, a larger set), every step judged by O1 and by the model's answer for that set alone — what the file held "
+    "before must not matter (tsv is left out: its plugin does not forward allow_overwrite, a second save raises "
+    "FileExistsError). Hand-written tables derive from such "
     "sets with one fault of 14 kinds. Specifications: random trees of depth <= 3 with int/float/str keys, bare numbers, "
     "strings, scientific-notation strings (valid, malformed, prefix-only), None, default blocks at any position, "
-    "definitions in any order with surplus atoms, unknown / mistyped options; intents rendered in all styles. A case is "
+    "definitions in any order with surplus atoms, unknown / mistyped options; intents rendered in all styles, including constant expressions whose whole text "
+    "is a scientific-notation number ('1e3', '2.5E-1') in the own options of a parameter or in the default block of a "
+    "group (also among the option values of the random specifications). A case is "
     "non-trivial when it holds at least one parameter; distinct = distinct case content."
 )
 
@@ -302,16 +310,21 @@ def oracle_roundtrip(ck, src, out, fmt, case, cycle):
 # ------------------------------------------------------------------------------------------
 # stream: save -> load
 # ------------------------------------------------------------------------------------------
-def roundtrip_case(ck, batch, case, scratch, with_model=True):
+def roundtrip_case(ck, batch, case, scratch, with_model=True, path=None, payload=None):
+    """`path`: save to this (possibly existing) file in both cycles instead of a fresh one; `payload`: the case that is
+    reported (the whole history of the file when the set is one step of an `overwrite` case)"""
+    fixed_path, step_case = path, case
     fmt, sep, flag = case["fmt"], case.get("sep"), case.get("replace_inf")
-    built = run_real(lambda: real.build(case["params"]))
+    if payload is not None:
+        case = payload
+    built = run_real(lambda: real.build(step_case["params"]))
     if built[0] != "ok":
         ck.count("roundtrip:construction-" + built[0])
         if built[0] == "err":
             ck.violation("valid-parameters-rejected", f"a valid parameter set cannot be constructed: {built[2]!r}", case)
         return
     src, obj = built[1], built[2]
-    ck.case(("roundtrip", fmt, sep, flag, repr(src)), nontrivial=bool(src))
+    ck.case(("roundtrip", fmt, sep, flag, repr(src), step_case.get("over")), nontrivial=bool(src))
     ck.count(f"roundtrip:{fmt}")
     ck.count(f"roundtrip:n={min(len(src), 8)}")
     if any(t[3] is not None for t in src):
@@ -331,8 +344,8 @@ def roundtrip_case(ck, batch, case, scratch, with_model=True):
             batch.setup(l)
     cur_src, cur_obj = src, obj
     for cycle in (1, 2):
-        path = scratch.path(fmt)
-        explicit = bool(case.get("explicit_format"))
+        path = fixed_path or scratch.path(fmt)
+        explicit = bool(step_case.get("explicit_format"))
         try:
             real.save(cur_obj, path, fmt, sep=sep, replace_inf=flag, explicit_format=explicit)
         except Exception as e:  # noqa: BLE001
@@ -387,6 +400,66 @@ def gen_roundtrip_case(rng, fmt=None):
         d["expression"] = rng.choice(['1 if "a,b" else 2', "1 if 'q;r' else 2", "[1, 2][0]", "1 +\t1", "max(1,\t2)", '2 if "|" else 1'])
         d.pop("vary", None)
     return case
+
+
+# ------------------------------------------------------------------------------------------
+# stream: a history of saves to ONE file (the set is simplified / extended between two runs and saved again)
+# ------------------------------------------------------------------------------------------
+OVERWRITE_FORMATS = ["csv", "xlsx", "ods"]     # tsv: the plugin does not forward allow_overwrite, a second save raises FileExistsError
+
+
+def gen_overwrite_case(rng, fmt=None):
+    """2-4 parameter sets saved one after the other to the same path; sizes go up and down (a later set with fewer
+    rows than the file already holds, the empty set, the same set again, a subset of the previous set)"""
+    fmt = fmt or rng.choice(OVERWRITE_FORMATS)
+    sets = []
+    sizes = [rng.choice([2, 3, 4, 5, 6, 8])]
+    for _ in range(rng.choice([1, 2, 2, 3])):
+        k = rng.random()
+        prev = sizes[-1]
+        if k < 0.55 and prev > 0:
+            sizes.append(rng.randint(0, prev - 1))      # fewer rows than before
+        elif k < 0.7:
+            sizes.append(prev)
+        else:
+            sizes.append(rng.randint(prev, 8))
+    for i, n in enumerate(sizes):
+        if i and n and n <= len(sets[-1]) and rng.random() < 0.4:
+            # the previous set with parameters dropped (same labels, no expression left dangling) or unchanged
+            keep = sorted(rng.sample(range(len(sets[-1])), n))
+            dropped = n < len(sets[-1])
+            sets.append([{k: v for k, v in sets[-1][j].items() if not (dropped and k == "expression")} for j in keep])
+        else:
+            sets.append(gen.param_set(rng, n=n)[0])
+    case = {"kind": "overwrite", "fmt": fmt, "sets": sets}
+    if fmt == "csv":
+        case["sep"] = rng.choice(CSV_SEPS)
+        if rng.random() < 0.5:
+            case["replace_inf"] = rng.random() < 0.5
+    if rng.random() < 0.25:
+        case["explicit_format"] = True
+    return case
+
+
+def overwrite_case(ck, batch, case, scratch, with_model=True):
+    """every save-load of the history is judged like a save-load into a fresh file (O1, and the model's answer for the set
+    alone): what the file held before must not matter"""
+    fmt = case["fmt"]
+    path = scratch.path(fmt)
+    ck.count(f"overwrite:{fmt}")
+    ck.count(f"overwrite:steps={len(case['sets'])}")
+    held = None
+    for step, dicts in enumerate(case["sets"]):
+        if held is not None:
+            ck.count("overwrite:step-" + ("shrinks" if len(dicts) < held else "same-size" if len(dicts) == held else "grows")
+                     + ("-to-empty" if not dicts else ""))
+        sub = {"kind": "roundtrip", "fmt": fmt, "params": dicts, "over": f"step {step} of {[len(d) for d in case['sets']]}"}
+        for k in ("sep", "replace_inf", "explicit_format"):
+            if k in case:
+                sub[k] = case[k]
+        roundtrip_case(ck, batch, sub, scratch, with_model, path=path, payload=dict(case, step=step))
+        if path.exists():
+            held = len(dicts)
 
 
 # ------------------------------------------------------------------------------------------
@@ -617,7 +690,11 @@ def intent_case(ck, batch, case, with_model=True):
         ck.count(f"intent:depth={len(g['path'])}")
         if g["defaults"] is not None:
             ck.count("intent:with-defaults")
+            if str(g["defaults"].get("expression")) in gen.SCI_CONSTANT_EXPRESSIONS:
+                ck.count("intent:sci-constant-expression:default-block")
         for p in g["params"]:
+            if str(p["opts"].get("expression")) in gen.SCI_CONSTANT_EXPRESSIONS:
+                ck.count("intent:sci-constant-expression:own-options")
             ck.count("intent:style=" + p["style"] + ("+sci" if p.get("sci") else "") + ("" if p["label"] else "+auto"))
     asts = {}
     for g in intent["groups"]:
@@ -782,6 +859,15 @@ def scanner_stream(ck, batch):
             impl = "T" if isinstance(r, float) else "F"
         except ValueError:
             impl = "raises"     # the pattern accepted the string and float() refused it: impossible with fullmatch, the model never answers this
+        # the statement's reading, independent of model and library: a string is a scientific-notation number iff it is, in
+        # full, [sign] digits-with-optional-point (at least one digit after an optional point) e/E [sign] digits — every
+        # such spelling ('+1e3', '.5e3', '-.125E-7') is a number, nothing else is
+        import re as _re
+        want = "T" if _re.fullmatch(r"[-+]?[0-9]*\.?[0-9]+[eE][-+]?[0-9]+", s) else "F"
+        if impl != want:
+            ck.violation("sci-string-reading-differs", f"convert_scientific_to_float({s!r}) "
+                         f"{'converts' if impl == 'T' else 'keeps the string' if impl == 'F' else 'raises ValueError'}, but the string "
+                         f"{'is' if want == 'T' else 'is not'} a number in scientific notation", {"kind": "sci", "text": s})
         batch.op(f"sci {enc(s)}", (lambda ans, impl=impl, s=s: None if ans == impl else
                                    f"convert_scientific_to_float({s!r}): implementation {'converts' if impl == 'T' else 'keeps the string' if impl == 'F' else 'raises ValueError'}, "
                                    f"model (number_scientific.fullmatch) {ans}"),
@@ -857,6 +943,8 @@ def run_case(ck, batch, case, scratch, with_model=True):
         intent_case(ck, batch, case, with_model)
     elif k == "serialized":
         serialized_case(ck, case, scratch)
+    elif k == "overwrite":
+        overwrite_case(ck, batch, case, scratch, with_model)
     else:
         raise core.HarnessError(f"unknown case kind {k!r}")
 
@@ -892,6 +980,9 @@ def run(ck):
                 run_case(ck, batch, gen_roundtrip_case(rng, fmt), scratch)
         for _ in range(ck.n(100, 900)):
             run_case(ck, batch, gen_roundtrip_case(rng), scratch)
+        for fmt in OVERWRITE_FORMATS:
+            for _ in range(ck.n(16, 150)):
+                run_case(ck, batch, gen_overwrite_case(rng, fmt), scratch)
         for _ in range(ck.n(260, 2500)):
             run_case(ck, batch, gen_table_case(rng, "file"), scratch)
         for _ in range(ck.n(400, 4000)):
@@ -981,8 +1072,10 @@ def search(ck):
         for i in range(ck.n(1500, 12000)):
             if ck.violations:
                 return
-            k = i % 5
-            if k < 3:
+            k = i % 6
+            if k == 5:
+                run_case(ck, batch, gen_overwrite_case(ck.rng), scratch, with_model=False)
+            elif k < 3:
                 run_case(ck, batch, gen_roundtrip_case(ck.rng), scratch, with_model=False)
             elif k == 3:
                 run_case(ck, batch, gen_intent_case(ck.rng), scratch, with_model=False)
